@@ -114,6 +114,8 @@ def accuracy_case(c):
 
 
 DIRECTED = [
+    # FSC with a fractional range and a displacement beyond its integer part
+    dict(model="fsc", shape=[15, 16, 14], max_shifts=[1.8, 1.8, 1.8], d=[1.8, -1.8, 0.5], seed=13, cutoff=None, tilt=None, rotvec=None, dkind="corner"),
     # FSC with a different search length on every axis (each axis needs its own phase table)
     dict(model="fsc", shape=[14, 15, 16], max_shifts=[2.0, 1.0, 2.0], d=[1.0, -1.0, 2.0], seed=11, cutoff=None, tilt=None, rotvec=None, dkind="integer"),
     dict(model="fsc", shape=[16, 14, 15], max_shifts=[1.0, 2.0, 1.5], d=[-1.0, 2.0, 1.0], seed=12, cutoff=None, tilt=None, rotvec=None, dkind="integer"),
@@ -136,7 +138,7 @@ def oracle_accuracy(ck, rng):
             shape = [shape[0]] * 3
         m = float(rng.choice([1.0, 1.5, 2.0, 2.6, 3.0, 1.9, 2.75, 3.8]))
         if model == "fsc":
-            m = min(m, 2.0)
+            m = float(rng.choice([1.0, 1.5, 1.8, 2.0]))
         # "a copy of the template displaced by d": the displaced density must stay inside the box (the Fourier
         # displacement wraps around), so large ranges need boxes of at least 2 * (m + 4.5) voxels
         lo = int(np.ceil(2 * (m + 4.5)))
